@@ -179,4 +179,205 @@ theorem unshrink_eqc (s : RS) : s.unshrink.eqc = s.eqc := orderFree_eqc.unshrink
 
 theorem unshrink_active' (s : RS) (_h : Inv s) : s.unshrink.active = s.unshrink.n := unshrink_active s
 
+/-! ### equality-constrained kind -/
+
+/-- the bounds of `getMaxKKTViolations` are sentinels or attained -/
+theorem maxKKT_attained (s : RS) : ∀ m,
+    ((s.maxKKT m).1 = -(1.0e100 : Rat) ∨ ∃ a, a < m ∧ s.up a = false ∧ s.g a = (s.maxKKT m).1) ∧
+    ((s.maxKKT m).2 = (1.0e100 : Rat) ∨ ∃ a, a < m ∧ s.lo a = false ∧ s.g a = (s.maxKKT m).2) := by
+  intro m
+  unfold State.maxKKT
+  exact foldl_range_inv
+    (fun (acc : Rat × Rat) a =>
+      let sd := if !s.lo a then smin acc.2 (s.g a) else acc.2
+      let lu := if !s.up a then smax acc.1 (s.g a) else acc.1
+      (lu, sd))
+    (-(1.0e100 : Rat), (1.0e100 : Rat))
+    (fun m acc => (acc.1 = -(1.0e100 : Rat) ∨ ∃ a, a < m ∧ s.up a = false ∧ s.g a = acc.1) ∧
+                  (acc.2 = (1.0e100 : Rat) ∨ ∃ a, a < m ∧ s.lo a = false ∧ s.g a = acc.2))
+    ⟨Or.inl rfl, Or.inl rfl⟩
+    (by
+      intro m acc ⟨hA, hB⟩
+      have hA' : acc.1 = -(1.0e100 : Rat) ∨ ∃ a, a < m + 1 ∧ s.up a = false ∧ s.g a = acc.1 := by
+        rcases hA with h | ⟨a, ha, h⟩
+        · exact Or.inl h
+        · exact Or.inr ⟨a, by omega, h⟩
+      have hB' : acc.2 = (1.0e100 : Rat) ∨ ∃ a, a < m + 1 ∧ s.lo a = false ∧ s.g a = acc.2 := by
+        rcases hB with h | ⟨a, ha, h⟩
+        · exact Or.inl h
+        · exact Or.inr ⟨a, by omega, h⟩
+      dsimp only
+      constructor
+      · cases hu : s.up m
+        · simp only [Bool.not_false, if_true]; unfold smax; split
+          · exact Or.inr ⟨m, Nat.lt_succ_self m, hu, rfl⟩
+          · exact hA'
+        · simp only [Bool.not_true, Bool.false_eq_true, if_false]; exact hA'
+      · cases hl : s.lo m
+        · simp only [Bool.not_false, if_true]; unfold smin; split
+          · exact Or.inr ⟨m, Nat.lt_succ_self m, hl, rfl⟩
+          · exact hB'
+        · simp only [Bool.not_true, Bool.false_eq_true, if_false]; exact hB')
+    m
+
+/-- LibSVM second-order selection reports a positive violation whenever there is an active variable `b` that can move
+up and an active variable `c` that can move down with `g_c < g_b`, the gradient of `b` above the sentinel -/
+theorem selectLibSVM_pos (s : RS) {b c : Nat} (hb : b < s.active) (hub : s.up b = false)
+    (hc : c < s.active) (hlc : s.lo c = false) (hg : s.g c < s.g b) (hsent : -(10 : Rat) ^ 100 < s.g b) :
+    0 < s.selectLibSVM.2.2 := by
+  unfold State.selectLibSVM
+  dsimp only
+  -- first loop: maximum over the variables that can move up
+  have key1 := foldl_range_inv
+    (fun (acc : Nat × Rat) a => if !s.up a ∧ s.g a > acc.2 then (a, s.g a) else acc)
+    (0, -(1.0e100 : Rat))
+    (fun m acc => -(1.0e100 : Rat) ≤ acc.2 ∧ ∀ a, a < m → s.up a = false → s.g a ≤ acc.2)
+    ⟨le_refl _, fun a ha => by omega⟩
+    (by
+      intro m acc ⟨h0, hA⟩
+      split_ifs with hcond
+      · refine ⟨le_trans h0 (le_of_lt hcond.2), ?_⟩
+        intro a ha hu
+        by_cases ham : a = m
+        · subst ham; exact le_refl _
+        · exact le_trans (hA a (by omega) hu) (le_of_lt hcond.2)
+      · refine ⟨h0, ?_⟩
+        intro a ha hu
+        by_cases ham : a = m
+        · subst ham
+          have : ¬ s.g a > acc.2 := fun hgt => hcond ⟨by simp [hu], hgt⟩
+          exact not_lt.mp this
+        · exact hA a (by omega) hu)
+    s.active
+  generalize (List.range s.active).foldl (fun (acc : Nat × Rat) a => if !s.up a ∧ s.g a > acc.2 then (a, s.g a) else acc)
+    (0, -(1.0e100 : Rat)) = u at key1 ⊢
+  have hub' : s.g b ≤ u.2 := key1.2 b hb hub
+  have hne : ¬ ((u.2 == -(1.0e100 : Rat)) = true) := by
+    rw [beq_iff_eq, lit1e100']; intro e; rw [e] at hub'; linarith
+  rw [if_neg hne]
+  -- second loop: best gain and smallest gradient over the variables that can move down
+  have key2 := foldl_range_inv
+    (fun (acc : Nat × Rat × Rat) a =>
+      if !s.lo a then
+        let ga := s.g a
+        let sd := smin acc.2.2 ga
+        let gain := maximumGainQuadratic2DOnLine (s.diag u.1) (s.diag a) (s.q u.1 a) u.2 ga (1.0e-12 : Rat)
+        if gain > acc.2.1 then (a, gain, sd) else (acc.1, acc.2.1, sd)
+      else acc)
+    (1, (0.0 : Rat), (1.0e100 : Rat))
+    (fun m acc => 0 ≤ acc.2.1 ∧ ∀ a, a < m → s.lo a = false →
+      (maximumGainQuadratic2DOnLine (s.diag u.1) (s.diag a) (s.q u.1 a) u.2 (s.g a) (1.0e-12 : Rat) ≤ acc.2.1 ∧ acc.2.2 ≤ s.g a))
+    ⟨by rw [lit0], fun a ha => by omega⟩
+    (by
+      intro m acc ⟨h0, hB⟩
+      cases hl : s.lo m
+      · simp only [Bool.not_false, if_true]
+        split_ifs with hgain
+        · refine ⟨le_trans h0 (le_of_lt hgain), ?_⟩
+          intro a ha hla
+          by_cases ham : a = m
+          · subst ham; refine ⟨le_refl _, ?_⟩; unfold smin; split <;> linarith
+          · obtain ⟨g1, g2⟩ := hB a (by omega) hla
+            refine ⟨le_trans g1 (le_of_lt hgain), ?_⟩
+            unfold smin; split <;> linarith
+        · refine ⟨h0, ?_⟩
+          intro a ha hla
+          by_cases ham : a = m
+          · subst ham; refine ⟨not_lt.mp hgain, ?_⟩; unfold smin; split <;> linarith
+          · obtain ⟨g1, g2⟩ := hB a (by omega) hla
+            refine ⟨g1, ?_⟩
+            unfold smin; split <;> linarith
+      · simp only [Bool.not_true, Bool.false_eq_true, if_false]
+        refine ⟨h0, ?_⟩
+        intro a ha hla
+        by_cases ham : a = m
+        · subst ham; rw [hl] at hla; exact absurd hla (by simp)
+        · exact hB a (by omega) hla)
+    s.active
+  generalize (List.range s.active).foldl _ _ = r at key2 ⊢
+  obtain ⟨g1, g2⟩ := key2.2 c hc hlc
+  -- the gain of `c` is positive
+  have hdiff : 0 < u.2 - s.g c := by linarith
+  have hgainc : 0 < maximumGainQuadratic2DOnLine (s.diag u.1) (s.diag c) (s.q u.1 c) u.2 (s.g c) (1.0e-12 : Rat) := by
+    unfold maximumGainQuadratic2DOnLine
+    dsimp only
+    rw [if_neg (by rw [lit0]; exact not_le.mpr hdiff)]
+    apply div_pos (mul_pos hdiff hdiff)
+    unfold smax; rw [litE, lit2]; split
+    · norm_num
+    · rename_i hh; have : (0:Rat) < 1 / 1000000000000 := by norm_num
+      linarith [not_lt.mp hh]
+  have hbest : ¬ ((r.2.1 == (0.0 : Rat)) = true) := by
+    rw [beq_iff_eq, lit0]; intro e; rw [e] at g1; linarith
+  rw [if_neg hbest]
+  show 0 < u.2 - r.2.2
+  linarith
+
+
+theorem shrinkStart_unshrunk {s : RS} (hact : s.active = s.n) (eps : Rat) :
+    shrinkStart s eps = (s, (s.maxKKT s.n).1, (s.maxKKT s.n).2) := by
+  unfold shrinkStart
+  dsimp only
+  rw [unshrink_of_active hact, hact]
+  split <;> rfl
+
+/-- gradients of the un-shrunk state strictly inside the sentinel range of the C++ -/
+def SentinelOK (s : RS) : Prop :=
+  ∀ a, a < s.n → -(10 : Rat) ^ 100 < s.unshrink.g a ∧ s.unshrink.g a < 10 ^ 100
+
+/-- after `shrink(eps)` on a fully active equality-constrained state with positive KKT violation (gradients inside the
+sentinel range) the LibSVM criterion still finds a strictly violating pair -/
+theorem shrink_svm_select_pos {s1 : RS} (h1 : Inv s1) (he : s1.eqc = true) (hact : s1.active = s1.n) (eps : Rat)
+    (hk : 0 < s1.checkKKT) (hr : ∀ a, a < s1.n → -(10 : Rat) ^ 100 < s1.g a ∧ s1.g a < 10 ^ 100) :
+    0 < (s1.shrink eps).1.selectLibSVM.2.2 := by
+  rw [checkKKT_svm s1 he, hact] at hk
+  obtain ⟨hA, hB⟩ := maxKKT_attained s1 s1.n
+  rw [lit1e100'] at hA hB
+  -- both bounds are attained
+  have hb : ∃ b, b < s1.active ∧ s1.up b = false ∧ s1.g b = (s1.maxKKT s1.n).1 := by
+    rcases hA with e | ⟨b, hb, h'⟩
+    · exfalso
+      rcases hB with e2 | ⟨c, hc, _, hgc⟩
+      · rw [e, e2] at hk; norm_num at hk
+      · have := (hr c hc).1; rw [hgc] at this; rw [e] at hk; linarith
+    · exact ⟨b, by rw [hact]; exact hb, h'⟩
+  have hc : ∃ c, c < s1.active ∧ s1.lo c = false ∧ s1.g c = (s1.maxKKT s1.n).2 := by
+    rcases hB with e | ⟨c, hc, h'⟩
+    · exfalso
+      obtain ⟨b, hb', _, hgb⟩ := hb
+      have := (hr b (by rw [← hact]; exact hb')).2; rw [hgb] at this; rw [e] at hk; linarith
+    · exact ⟨c, by rw [hact]; exact hc, h'⟩
+  have hsent : -(10 : Rat) ^ 100 < (s1.maxKKT s1.n).1 := by
+    obtain ⟨b, hb', _, hgb⟩ := hb
+    rw [← hgb]; exact (hr b (by rw [← hact]; exact hb')).1
+  -- ... and survive the shrinking loop
+  have hfin : ∃ b c, b < (s1.shrink eps).1.active ∧ (s1.shrink eps).1.up b = false ∧
+      (s1.shrink eps).1.g b = (s1.maxKKT s1.n).1 ∧ c < (s1.shrink eps).1.active ∧ (s1.shrink eps).1.lo c = false ∧
+      (s1.shrink eps).1.g c = (s1.maxKKT s1.n).2 := by
+    cases hs : s1.shrinkOn
+    · have : (s1.shrink eps).1 = s1 := by unfold State.shrink; simp [hs]
+      rw [this]
+      obtain ⟨b, hb1, hb2, hb3⟩ := hb
+      obtain ⟨c, hc1, hc2, hc3⟩ := hc
+      exact ⟨b, c, hb1, hb2, hb3, hc1, hc2, hc3⟩
+    · rw [shrink_eq s1 eps hs, shrinkStart_unshrunk hact]
+      dsimp only
+      obtain ⟨b, hb1, hb2, hb3⟩ := shrinkGo_keeps (fun up _ g => up = false ∧ g = (s1.maxKKT s1.n).1)
+        (s1.maxKKT s1.n).1 (s1.maxKKT s1.n).2 true
+        (fun t x het hQ => by
+          unfold State.testShrink
+          simp only [het, if_true, hQ.1, Bool.false_and, Bool.or_false, Bool.and_eq_false_iff, decide_eq_false_iff_not]
+          right; rw [hQ.2]; linarith)
+        s1.active s1 (Nat.le_refl _) he hb
+      obtain ⟨c, hc1, hc2, hc3⟩ := shrinkGo_keeps (fun _ lo g => lo = false ∧ g = (s1.maxKKT s1.n).2)
+        (s1.maxKKT s1.n).1 (s1.maxKKT s1.n).2 true
+        (fun t x het hQ => by
+          unfold State.testShrink
+          simp only [het, if_true, hQ.1, Bool.false_and, Bool.false_or, Bool.and_eq_false_iff, decide_eq_false_iff_not]
+          right; rw [hQ.2]; linarith)
+        s1.active s1 (Nat.le_refl _) he hc
+      exact ⟨b, c, hb1, hb2, hb3, hc1, hc2, hc3⟩
+  obtain ⟨b, c, hb1, hb2, hb3, hc1, hc2, hc3⟩ := hfin
+  exact selectLibSVM_pos _ hb1 hb2 hc1 hc2 (by rw [hb3, hc3]; linarith) (by rw [hb3]; exact hsent)
+
 end SharkVerif.Smo
